@@ -31,7 +31,7 @@ CLAIMS = {
             'code-write protocol (RF4d), label-operand position agreement between duplicator, simplifier and interpreter (RF7g), '
             'interface switch protocol: single writer of the public address and thunk redirection on every setter path (RF31), '
             'indirect-jump CFG edges (RF33), origin of addresses stored into lref data (RF42), address-taken labels (RF52/RF53), API view of a callee at link time (RF56), '
-            'direct-call offset range test (RF64), direct-call patching needs machine code (RF77), interpreter label unit (RF89), dynamic stack alignment of the call wrapper (RF11a), positional pairing of label references and successor versions only under equal counts (RF104), interpreter shim block fetch vs psABI (RF111), one stable address per label under lazy bb generation (RF124), code address never used as the function's address value (RF132)',
+            'direct-call offset range test (RF64), direct-call patching needs machine code (RF77), interpreter label unit (RF89), dynamic stack alignment of the call wrapper (RF11a), positional pairing of label references and successor versions only under equal counts (RF104), interpreter shim block fetch vs psABI (RF111), one stable address per label under lazy bb generation (RF124), code address never used as the address value of a function (RF132)',
             'Decides narrow structural necessary conditions of interface independence: the glue that switches a function from stub to '
             'generated code preserves every argument register and the stack, both thunk patterns have one size so retargeting never '
             'overwrites a neighbour, redirection writes go through the protected code-write path, label targets are rewired at the '
